@@ -39,6 +39,22 @@ def handle : List String → Option String
     let okq := runs.all fun r => r.2.queue.isEmpty
     let rows := runs.map fun r => String.intercalate " " ((knnOut pt k r.1 r.2.res).map showHit)
     some ("ok " ++ showBool okq ++ " " ++ toString qs.length ++ (if rows.isEmpty then "" else " " ++ String.intercalate " " rows))
+  | "c16.knnsweep" :: rest => do
+    -- same as c16.knn for a list of (k, bound2) pairs over ONE tree:  … <targets> <queries> <combos: list (k optrat)>
+    -- reply: ok <queue emptied> then, per combo, the rows of c16.knn (nq rows of k entries)
+    let (root, depth, ts, qs, combos) ← run (do
+      let root ← boxP; let depth ← nat
+      let ts ← listOf p3P; let qs ← listOf p3P
+      let combos ← listOf (do let k ← nat; let b ← optOf rat; pure (k, b))
+      pure (root, depth, ts, qs, combos)) rest
+    let pt := ptOf ts.toArray
+    let t := build pt depth root (List.range ts.length)
+    let fuel := t.size
+    let outs := combos.map fun (k, bound) =>
+      let runs : List (P3 × CSt) := qs.map fun q => (q, knnRun pt k bound root t q fuel)
+      (runs.all fun (r : P3 × CSt) => r.2.queue.isEmpty,
+       String.intercalate " " (runs.flatMap fun (r : P3 × CSt) => (knnOut pt k r.1 r.2.res).map showHit))
+    some ("ok " ++ showBool (outs.all (·.1)) ++ " " ++ String.intercalate " " (outs.map (·.2)))
   | "c16.hausdorff" :: rest => do
     let (root, depth, as, bs) ← run (do
       let root ← boxP; let depth ← nat; let as ← listOf p3P; let bs ← listOf p3P
